@@ -4,6 +4,7 @@ from __future__ import annotations
 import collections
 import hashlib
 import importlib.util
+import os
 import random
 
 from simlib import bootstrap, dsgen, eread, sched as S, simloop
@@ -102,6 +103,11 @@ def gen_case(rng, tier, index):
             "batch": rng.choice([0, 0, 2, 3, 32]),
             "prefetch": rng.choice([1, 2, 5]),
             "overlap": rng.random() < 0.25,
+            # overlapping passes with non-nested lifetimes (a short split is
+            # passed over several times while a longer pass is under way)
+            "stagger": rng.random() < 0.5,
+            # line-level pre-emption inside every sedpack.io source file
+            "line": rng.random() < 0.3,
             "pattern": rng.getrandbits(30)}
 
 
@@ -248,6 +254,43 @@ def run_iface(case):
                 h.update(repr(loop.trace).encode())
                 if len(plan) > 1:
                     probes["two_concurrent_async_consumers"] += 1
+            elif (iface in ("conc", "sync", "rust") and case.get("overlap")
+                  and case.get("stagger") and st["fmt"] != "tfrec"):
+                order = [plan[0]] + [s_ for s_ in sorted(
+                    splits, key=lambda s: len(env.model.ids(s)))
+                    if s_ != plan[0]]
+                specs = []
+                for j, s_ in enumerate((order * 3)[:3]):
+                    tables.setdefault(s_, env.shard_table(s_))
+                    optsd.setdefault(s_, resolve_opts(
+                        case, len(env.model.ids(s_)), len(tables[s_])))
+                    specs.append((iface, s_, optsd[s_], 1 if j == 0 else 3))
+                done, err, sc = eread.run_staggered(
+                    env, ds, specs, case["sched_seed"],
+                    case.get("pattern", 3), policy=case["policy"])
+                probes["staggered_passes_on_one_handle"] += 1
+                stats["scheduler_decisions"] += sc.steps
+                h.update(sc.digest().encode())
+                if err:
+                    out.update(ok=False, vclass="overlapping_passes_fail",
+                               detail=f"{iface} (staggered): {err}")
+                else:
+                    for j, (_, s_, _, _) in enumerate(specs):
+                        want_ = collections.Counter(env.model.ids(s_))
+                        for n_, r_ in enumerate(done[j]):
+                            seen_ = collections.Counter(i for i, _ in r_)
+                            if seen_ != want_ and out["ok"]:
+                                out.update(
+                                    ok=False,
+                                    vclass="overlapping_passes_interfere",
+                                    detail=f"{iface} split {s_} (stream {j}, "
+                                    f"pass {n_} of staggered passes on one "
+                                    f"handle): yielded "
+                                    f"{sorted(seen_.elements())[:10]} "
+                                    f"expected "
+                                    f"{sorted(want_.elements())[:10]}")
+                    results[plan[0]] = done[0][0] if done[0] else []
+                    counters[plan[0]] = None
             elif (iface in ("conc", "sync") and case.get("overlap") and
                   st["fmt"] != "tfrec"):
                 # two passes of ONE handle alive at the same time, each with
@@ -288,10 +331,18 @@ def run_iface(case):
                     results[s0] = res[0]
                     counters[s0] = None
             elif iface == "conc":
+                line = bool(case.get("line"))
                 sc = S.Sched(random.Random(case["sched_seed"]),
                              policy=case["policy"],
                              policy_param=case["policy_param"],
-                             choices=case.get("choices"), max_steps=200000)
+                             choices=case.get("choices"),
+                             max_steps=400000 if line else 200000,
+                             trace_files=(os.path.join(
+                                 bootstrap.SRC, "sedpack", "io") + os.sep,)
+                             if line else (),
+                             line_prob=0.2 if line else 0.0)
+                if line:
+                    probes["conc_line_level_preemption"] += 1
                 with eread.sim_bindings(ds), sc:
                     s = plan[0]
                     results[s] = [dsgen.canon(e, st["attrs"])
@@ -433,7 +484,9 @@ def reach(agg):
                  "iface_async", "conc_lazy_pool", "conc_executor",
                  "two_concurrent_async_consumers", "uneven_shards",
                  "nested_shard_lists", "parallelism_above_shard_count",
-                 "shuffle_above_dataset_size"):
+                 "shuffle_above_dataset_size",
+                 "staggered_passes_on_one_handle",
+                 "conc_line_level_preemption"):
         if not p.get(name):
             need.append(f"probe {name} never hit")
     if bootstrap.RUST_SOURCE not in ("none", "stub") and not p.get(
